@@ -496,6 +496,13 @@ def check_global_step(prog: Program, rep, rule: str) -> None:
     rep.saw(setter)
     for mod, f, n in writers:
         fq = f.qualname if f else '<module>'
+        if f is not None and isinstance(n, ast.Name):
+            declared = {nm for g_ in ast.walk(f.node) if isinstance(g_, ast.Global) for nm in g_.names}
+            if G not in declared:
+                rep.fail(rule, mod.path, n.lineno, fq, f'local-binding:{fq}',
+                         f'{fq} assigns `{G}` without declaring it `global`: the assignment binds a local and the module-level '
+                         f'default step keeps its old value (a calculator created after {fq}() still takes the earlier step)')
+                continue
         if f is None and mod is tci and isinstance(parent(n), (ast.Assign, ast.AnnAssign)):
             rep.ok(rule, mod.where(n), 'module-level initialisation of the global default step')
         elif fq == 'reset_globals':
